@@ -1,3 +1,4 @@
+import re
 """C03 — garbage collection never reclaims a live object (structural clauses R03a-e)."""
 from ..facts import callee, op_const, op_place, place_str, loc_str, short_path
 from ..flow import Labels, fields_read_of_self, places_read
@@ -862,6 +863,57 @@ HEAP_INDEX_FIELDS = {
 }
 
 
+ARITH = re.compile(r"^(core|std)::num::<impl (usize|u64|u32)>::(saturating_|wrapping_|checked_|overflowing_)?(add|sub|mul|div|rem|min|max|pow)$|"
+                   r"^(core|std)::cmp::(Ord|PartialOrd|PartialEq)::|^(core|std)::cmp::(min|max)$")
+
+
+def _scalar_never_indexes(facts, name):
+    """True when the values read from the scalar field Heap.<name> are only compared, combined arithmetically and stored back
+    into scalar places: they are never an index projection and never the argument of a call other than integer arithmetic."""
+    from ..flow import Labels, places_read
+
+    def reads_field(p):
+        return any(isinstance(e, dict) and e.get("n") == name for e in p["p"])
+
+    seen = False
+    for path, f in facts.fns.items():
+        if f.crate != "marwood":
+            continue
+        touches = False
+        for bb, j, st in f.stmts():
+            if any(reads_field(p) for p in places_read(st["rv"])) or reads_field(st["lhs"]):
+                touches = True
+        for bb, t in f.calls():
+            for a in t["args"]:
+                p = op_place(a)
+                if p is not None and reads_field(p):
+                    touches = True
+        if not touches:
+            continue
+        if "heap::Heap" not in path and not any("heap::Heap" in (l or "") for l in f.locals):
+            continue
+        if "fmt::Debug" in (f.impl_trait or "") or "fmt::Debug" in path:
+            continue      # rendering the number is not a use as an index
+        seen = True
+
+        def seed(fn, where, p):
+            return ["F"] if reads_field(p) else []
+        lab = Labels(f, seed=seed)
+        for bb, t in f.calls():
+            c = callee(t) or ""
+            if any("F" in a for a in lab.call_arg_labels(t, bb)) and not ARITH.search(c):
+                return False
+        for bb, j, st in f.stmts():
+            for p in list(places_read(st["rv"])) + [st["lhs"]]:
+                for e in p["p"]:
+                    if isinstance(e, dict) and "idx" in e and "F" in lab.labels.get(e["idx"], ()):
+                        return False
+            # a borrow of the field hands it to code this scan does not follow
+            if st["rv"]["k"] == "ref" and reads_field(st["rv"]["place"]) and st["rv"].get("mut"):
+                return False
+    return seen
+
+
 def r03k(ctx, rep, rule="R03k"):
     """references kept outside the cells: bytecode operands and Heap's own fields"""
     from ..shapes import dominating_guards
@@ -913,6 +965,9 @@ def r03k(ctx, rep, rule="R03k"):
         key = "%s|Heap.%s" % (rule, fld["name"])
         if fld["name"] in HEAP_INDEX_FIELDS:
             rep.ok(rule, key, "Heap.%s (%s): %s" % (fld["name"], fld["hir"], HEAP_INDEX_FIELDS[fld["name"]]), [heap["loc"]])
+        elif fld["ty"] == "usize" and _scalar_never_indexes(facts, fld["name"]):
+            rep.ok(rule, key, "Heap.%s (%s) is a plain number: no value read from it reaches an index position or a call other "
+                   "than integer arithmetic, so it names no cell" % (fld["name"], fld["hir"]), [heap["loc"]])
         else:
             rep.fail(rule, key, "Heap.%s has type %s and can hold the index of a cell, but it is neither a root of run_gc nor a table "
                      "Heap::free keeps in step (no reviewed entry): once the cell it names is unreachable from the machine it is "
